@@ -9,12 +9,14 @@ ancestor of it).  Exhaustive for all graphs up to the stated number of blocks (o
 <= 2, i.e. self loops and multi-edges included), random beyond (n <= 12, unreachable chains / cycles feeding
 reachable blocks, irreducible loops).
 
-Known wrong-behaviour models (used ONLY to give a narrow key to a mismatch that was already detected by the
-reference, never to decide that something holds):
-  * dominance: greatest fixpoint of dom[b] = {b} | AND(dom[p]) where a block without predecessors gets {b}
-    (the unchanged tree; unreachable root-less predecessors then erase the entry from the intersection);
-  * post-order: successors marked `seen` when pushed (lazy filter => a multi-edge pushes its target twice; a
-    block may be emitted before a successor that was already pushed by an ancestor)."""
+EDIT HISTORIES: a CFG is built, queried, and then edited in place through every public way (`term.successors[i] = b`,
+`term.successors = [...]`, replacing / erasing / adding the terminator via Block and Rewriter APIs, adding, erasing,
+detaching, moving and splitting blocks, cloning the region); after every edit the region is re-queried through a fresh
+`DominanceInfo`, through the module-level `strictly_dominates` (all pairs, so any state kept between calls is exposed)
+and through `PostOrderIterator`. The generator keeps its OWN record of the intended edges and block order; the
+reference is computed from that record only, never from what `op.successors` / `region.blocks` read back. All single
+in-place retargetings of every n<=3 graph are enumerated exhaustively (incl. one of several parallel edges, self loops).
+A history ends at the first state that disagrees, so the key names the edit kind that introduced the mismatch."""
 from __future__ import annotations
 
 import itertools
@@ -33,7 +35,12 @@ RULE = ("CFGs given as per-block ordered successor lists (block 0 = entry) reali
         "loops, shuffled block order. A graph is non-trivial if >=2 blocks are reachable and it has an unreachable "
         "block, a cycle or a join (reachable block with >=2 distinct predecessors). Distinct: exhaustive shards are "
         "pairwise disjoint by construction (counted), random graphs (n>=5 lists, disjoint from the exhaustive space "
-        "in quick; n>=6 in thorough) by hash of the successor lists")
+        "in quick; n>=6 in thorough) by hash of the successor lists. EDIT HISTORIES: every single in-place retargeting "
+        "term.successors[i]=blk of every n<=3 graph (32 224, of which 6 140 move one of several parallel edges) and random "
+        "12-step histories over 10 edit kinds (setitem, successors setter, terminator replaced/erased/added via Block and "
+        "Rewriter, block added/erased/detached/moved/split, region cloned), re-queried after every edit against the "
+        "generator's own edge record; a random history is non-trivial with >=4 successful edits of >=2 kinds, distinct by "
+        "hash of (initial graph, steps)")
 LEVEL_TEXT = ("Every (a, b) query of DominanceInfo with b reachable and the full PostOrderIterator output are compared with "
               "a path-based reference on every CFG of a bounded-exhaustive enumeration and on random larger CFGs; held = "
               "no query / traversal disagreed on the graphs explored.")
@@ -41,7 +48,9 @@ LEVEL_NOTE = ("trusts the reference (DFS reachability with one block removed; cr
               "enumeration on every exhaustive graph), the CFG builder (test.termop successors) and CPython")
 TECHNIQUE = "reference-model differential monitor (path-based dominance / DFS post-order definition); bounded-exhaustive CFGs + random"
 ENGINES = ["harness", "models"]
-ASSUMPTIONS = ["a region CFG's edges are the successors of each block's last operation (terminator)",
+ASSUMPTIONS = ["edit histories: the intended graph is the generator's own record of block order and edges; an edit call "
+               "that raises ends the history (IR-edit atomicity is C01's property) and is counted",
+               "a region CFG's edges are the successors of each block's last operation (terminator)",
                "reference dominance by reachability-after-removal equals the all-paths definition (cross-checked by "
                "explicit simple-path enumeration for n<=4)",
                "no oracle for queries whose target block is unreachable (outside the property); they are only counted"]
@@ -137,60 +146,6 @@ def ref_recursive_postorder(succs):
 
     go(0)
     return out
-
-
-# known wrong-behaviour models (classification of an already detected mismatch only) ----------
-def buggy_dom_model(succs, order):
-    """The unchanged tree's data-flow: blocks visited in region order, pred-less non-entry block -> {b}."""
-    n = len(succs)
-    pred = {b: set() for b in range(n)}
-    for u in range(n):
-        for v in succs[u]:
-            pred[v].add(u)
-    entry, rest = order[0], order[1:]
-    dom = {entry: {entry}}
-    for b in rest:
-        dom[b] = set(range(n))
-    changed = True
-    while changed:
-        changed = False
-        for b in rest:
-            new = {b} | (set.intersection(*(dom[p] for p in pred[b])) if pred[b] else set())
-            if new != dom[b]:
-                dom[b] = new
-                changed = True
-    return dom
-
-
-def buggy_postorder_model(succs, term_ok):
-    stack = [(0, False)]
-    seen = {0}
-    out = []
-    while stack:
-        b, vis = stack.pop()
-        while not vis:
-            stack.append((b, True))
-            if term_ok[b]:
-                s = succs[b]
-                stack.extend((x, False) for x in reversed(s) if x not in seen)
-                seen.update(s)
-            b, vis = stack.pop()
-        out.append(b)
-    return out
-
-
-def has_rootless_unreachable_ancestor(succs, R, b):
-    """some unreachable block with no predecessors at all reaches b"""
-    n = len(succs)
-    has_pred = set()
-    for u in range(n):
-        for v in succs[u]:
-            has_pred.add(v)
-    for q in range(n):
-        if q not in R and q not in has_pred and q != 0:
-            if b in ref_reach(succs, start=q):
-                return True
-    return False
 
 
 # ------------------------------------------------------------------ building real IR
@@ -395,15 +350,8 @@ def check_graph(cx: Ctx, succs, region, blocks, term_ok, wit, order=None, varian
                 if got is not (a in dom[b] and a != b):
                     bad.append((a, b, "module.strictly_dominates", got, a in dom[b] and a != b))
         if bad:
-            # classify with the known wrong-behaviour model
-            model = buggy_dom_model(succs, list(order) if order else list(range(n)))
             for a, b, what, got, want in bad[:50]:
                 key = "dominance:" + what + (":missing" if want else ":spurious")
-                impl_row = {x for x in range(n) if info.dominates(blocks[x], blocks[b])}
-                if (want and not got and impl_row == model[b] and a not in model[b]
-                        and has_rootless_unreachable_ancestor(succs, R, b)):
-                    # observed row == known wrong-behaviour model AND the graph has the triggering shape
-                    key = "dominance:unreachable-rootless-predecessor-erases-dominators"
                 w = dict(wit)
                 w.update(a=a, b=b, query=what, got=got, want=want, reachable=sorted(R))
                 if cx.per_key.get(cx.keyp + key, 0) < 4:
@@ -481,14 +429,8 @@ def check_graph(cx: Ctx, succs, region, blocks, term_ok, wit, order=None, varian
         else:
             cx.c("postorder_valid_but_other_than_recursive_dfs_order")
     else:
-        model = buggy_postorder_model(succs, term_ok)
         for kind, detail in problems:
             key = "postorder:" + kind
-            if po == model and len(got_blocks) < limit:
-                if kind == "block-yielded-twice" and any(len(set(s)) < len(s) for s in esuccs):
-                    key = "postorder:multi-edge-successor-yielded-twice"
-                elif kind == "successor-after-block-without-back-edge":
-                    key = "postorder:successor-marked-seen-when-pushed-emitted-late"
             w = dict(wit)
             w.update(got_order=po, recursive_dfs_order=ref_recursive_postorder(esuccs), reachable=sorted(ER))
             if cx.per_key.get(cx.keyp + key, 0) < 4:
@@ -702,6 +644,7 @@ def check_hist(cx: Ctx, h: Hist, init, steps, last, clone=False):
            "intended_order": list(h.order), "intended_succs": {str(b): list(h.succ[b]) for b in h.order},
            "replay_job": {"kind": "hist_one", "succs": init["succs"], "pad": init["pad"], "steps": list(steps)}}
     cx.keyp = f"after-{last}:"
+    before = cx.counters.get("violating_observations", 0)
     try:
         if len(actual) != len(blocks) or any(x is not y for x, y in zip(actual, blocks)):
             cx.viol("history:region-block-list-differs-from-intended",
@@ -725,6 +668,9 @@ def check_hist(cx: Ctx, h: Hist, init, steps, last, clone=False):
                         count_nt=False, sample=False)
     finally:
         cx.keyp = ""
+    if cx.counters.get("violating_observations", 0) != before:
+        cx.c("histories_ended_at_first_mismatch")
+        return False
     return True
 
 
